@@ -1669,6 +1669,7 @@ func (e *Engine) deleteSeriesRangeData(seriesKeys [][]byte, min, max int64) ([][
 			}
 		}
 
+		verifPoint("delete.pending", e.path)
 		return batch.Commit()
 	}); err != nil {
 		return nil, err
